@@ -1013,6 +1013,15 @@ func (self *Metadata) restartLocal() error {
 					util.PrintInfo("runtime", "Possibly running  %s", self.fqname)
 				}
 			}
+		} else if err == nil {
+			// The job monitor creates its log file before it records its
+			// pid.  If it was killed in between, together with the
+			// previous mrp, nothing will ever report on this job.
+			if err := self.uncheckedReset(); err == nil {
+				util.PrintInfo("runtime", "(reset-running)   %s", self.fqname)
+			} else {
+				return err
+			}
 		}
 	}
 	return nil
